@@ -16,6 +16,7 @@ import (
 
 type h14Shared struct {
 	cr     CharRecipe
+	cr2    CharRecipe
 	wr     *WLRecipe
 	wl     *WordList
 	sf     SFFunction
@@ -34,6 +35,7 @@ func h14Setup() *h14Shared {
 	s.master = []string{"ab", "", "cd", "XYZ", "q"}
 	s.reqs = s.master[:3]
 	s.cr = CharRecipe{Length: 3, AllowChars: "abcdx", Require: Digits | Symbols, RequireSets: s.reqs}
+	s.cr2 = CharRecipe{Length: 2, Require: Letters | Symbols, Exclude: Symbols, ExcludeChars: "xyz"}
 	s.input = []string{"uno", "dos", "tres", "Uno"}
 	s.wl, _ = NewWordList(s.input)
 	s.sfRec = CharRecipe{Length: 1, AllowChars: "xy0", RequireSets: []string{"xy"}}
@@ -70,15 +72,18 @@ func h14Call(s *h14Shared, op int) {
 		r.SeparatorChar = "-"
 		r.Capitalize = CSRandom
 		r.Generate()
+	case 9:
+		s.cr2.Generate()
+		s.cr2.Entropy()
 	default:
-		h14Presets[op-9]()
+		h14Presets[op-10]()
 	}
 }
 
-const h14Ops = 9 + 7
+const h14Ops = 10 + 7
 
 func h14OpName(op int) string {
-	names := []string{"CharRecipe.Generate", "CharRecipe.Entropy", "CharRecipe.Alphabet", "CharRecipe.SuccessProbability", "WLRecipe.Generate", "WLRecipe.Entropy", "Size", "constructed SFFunction", "WLRecipe.Generate(random)"}
+	names := []string{"CharRecipe.Generate", "CharRecipe.Entropy", "CharRecipe.Alphabet", "CharRecipe.SuccessProbability", "WLRecipe.Generate", "WLRecipe.Entropy", "Size", "constructed SFFunction", "WLRecipe.Generate(random)", "CharRecipe with a fully excluded required class"}
 	if op < len(names) {
 		return names[op]
 	}
@@ -96,7 +101,7 @@ func H14() {
 	mode := vChoice("mode", 2) // 0: draws summarised; 1: the real kernel on source bytes
 	vSummary(mode == 0)
 	op := vChoice("op", h14Ops)
-	if mode == 1 && op != 0 && op != 7 && op != 10 {
+	if mode == 1 && op != 0 && op != 7 && op != 11 {
 		return // the kernel's own write set does not depend on the caller: three ops suffice
 	}
 	vSample("op", h14OpName(op))
@@ -112,7 +117,7 @@ func H14() {
 	}
 	op2 := vChoice("op2", vParam("second", 4))
 	vBeginCall()
-	h14Call(s, []int{0, 4, 7, 10}[op2])
+	h14Call(s, []int{0, 4, 7, 11}[op2])
 	vEndCall()
 	vAssert(vSharedWrites() == 0, "a second API call on the same shared values writes to shared memory")
 }
@@ -165,6 +170,16 @@ func H15a() {
 
 // h15Family: recipes that differ only in how the required characters are
 // grouped (and lookalikes under joining with "", "," or " ").
+// recipes with class flags: a class that is required and fully excluded, then
+// recipes that require or allow that class
+var h15Flagged = []CharRecipe{
+	{Length: 2, Require: Letters | Digits | Symbols, Exclude: Symbols},
+	{Length: 2, Allow: Letters, Require: Symbols},
+	{Length: 2, Allow: Digits | Symbols, Exclude: Ambiguous, ExcludeChars: "abc!"},
+	{Length: 2, Allow: All, Exclude: Ambiguous},
+	{Length: 2, Allow: Digits, Require: Uppers, Exclude: Uppers | Digits},
+}
+
 var h15ReqSets = [][]string{
 	{"ab", "cd"},
 	{"abcd"},
@@ -177,6 +192,9 @@ var h15ReqSets = [][]string{
 }
 
 func h15Recipe(i int) CharRecipe {
+	if i >= len(h15ReqSets) {
+		return h15Flagged[i-len(h15ReqSets)]
+	}
 	return CharRecipe{Length: 2, AllowChars: "xy, ", RequireSets: h15ReqSets[i]}
 }
 
@@ -211,10 +229,13 @@ func H15b() {
 	savedT, savedF := MaxTrials, MaxFailRate
 	defer func() { MaxTrials, MaxFailRate = savedT, savedF }()
 	MaxTrials, MaxFailRate = 2, 1.0
-	n := len(h15ReqSets)
+	n := len(h15ReqSets) + len(h15Flagged)
 	i := vChoice("recipe", n)
 	j := vChoice("earlier-recipe", n)
 	update := vChoice("update", 2) == 1
+	if update && (i >= len(h15ReqSets) || j >= len(h15ReqSets)) {
+		return // the update variant changes RequireSets only
+	}
 	vSummary(true)
 
 	r := h15Recipe(j)
@@ -316,6 +337,18 @@ func H15w() {
 	for k := 0; k < nmin; k++ {
 		vAssume(vDraw(dE+k) == vDraw(d1+dE+k))
 	}
+	// a recipe copied by value is its own recipe: updating the copy, or the
+	// original afterwards, affects only the value that was updated
+	base := NewWLRecipe(2, wl1)
+	cp := *base
+	cp.SeparatorChar = "_"
+	base.SeparatorChar = "#"
+	pc, ec := cp.Generate()
+	if ec == nil {
+		seps := pc.Tokens().Separators()
+		vAssert(len(seps) == 1 && seps[0] == "_", "a recipe copied by value does not honour its own SeparatorChar (it follows the value it was copied from)")
+		vReach("copied")
+	}
 	vAssert(nGen == d0-dE, "the number of draws WLRecipe.Generate makes on the same stream depends on earlier calls")
 	vAssert((ferr == nil) == (aerr == nil), "WLRecipe.Generate fails depending on earlier calls")
 	if ferr == nil && aerr == nil {
@@ -371,7 +404,7 @@ func H18() {
 	MaxTrials = vLen("maxtrials", 1, 2)
 	MaxFailRate = 1.0
 	vSummary(true)
-	kind := vChoice("kind", 8)
+	kind := vChoice("kind", 9)
 	var p *Password
 	var err error
 	switch kind {
@@ -408,6 +441,11 @@ func H18() {
 		p, err = r.Generate()
 	case 5: // refused: bad length
 		r := CharRecipe{Length: 0, Allow: Digits}
+		p, err = r.Generate()
+	case 8: // words that capitalisation does not change, under first / one
+		wl, _ := NewWordList([]string{"4ever", "2morrow", "uno"})
+		r := NewWLRecipe(2, wl)
+		r.Capitalize = []CapScheme{CSFirst, CSOne}[vChoice("scheme", 2)]
 		p, err = r.Generate()
 	case 7: // diagnostics emitted after a generation (they must not carry it)
 		r := CharRecipe{Length: 3, Allow: Lowers}
